@@ -32,6 +32,9 @@ func (vc *VC) execCall(fr *Frame, site *ssa.Call, call *ssa.CallCommon, st *Stat
 	case *ssa.Builtin:
 		return vc.execBuiltin(fr, call, callee, st, rt)
 	case *ssa.Function:
+		if fr.top && site != nil {
+			vc.callsiteClauses(fr, site, callee.Name(), st)
+		}
 		var args []Val
 		for _, a := range call.Args {
 			args = append(args, vc.value(fr, a))
@@ -888,6 +891,32 @@ func (vc *VC) lookupLocal(fr *Frame, li *loopInfo, name string, phiVals map[*ssa
 			return fr.vals[p], true
 		}
 	}
+	// 2b. a reference inside the loop to a value defined outside it: the variable is not
+	// assigned in the loop (else it would be a header phi), so this is its value at entry
+	for _, b := range fr.fn.Blocks {
+		if !li.blocks[b] {
+			continue
+		}
+		for _, instr := range b.Instrs {
+			dr, ok := instr.(*ssa.DebugRef)
+			if !ok || dr.IsAddr {
+				continue
+			}
+			id, ok := dr.Expr.(*ast.Ident)
+			if !ok || id.Name != name {
+				continue
+			}
+			if di, ok := dr.X.(ssa.Instruction); ok && li.blocks[di.Block()] {
+				continue
+			}
+			if v, ok := fr.vals[dr.X]; ok {
+				return v, true
+			}
+			if c, ok := dr.X.(*ssa.Const); ok {
+				return vc.value(fr, c), true
+			}
+		}
+	}
 	// 3. a definition that dominates the header: last DebugRef of a variable of that name
 	var best ssa.Value
 	var bestBlock *ssa.BasicBlock
@@ -1409,4 +1438,79 @@ func (w *World) optedOut(T types.Type, it *types.Interface) bool {
 		}
 	}
 	return it.NumMethods() > 0
+}
+
+// callsiteClauses: `callsite <callee> expr` clauses of the function under
+// verification are obligations at every call of <callee> in its body; the
+// expression may use the parameters and the declared locals, bound to their
+// values at the call.
+func (vc *VC) callsiteClauses(fr *Frame, site *ssa.Call, callee string, st *State) {
+	c := vc.curContract
+	if c == nil {
+		return
+	}
+	for _, cl := range vc.clauses(c) {
+		if cl.Raw.Kind != "callsite" || cl.Raw.Callee != callee {
+			continue
+		}
+		e := &SpecEnv{vc: vc, pkg: c.Pkg, vars: map[types.Object]Val{}, st: st, old: vc.entry}
+		old := map[types.Object]Val{}
+		for i := 0; i < c.NIn; i++ {
+			old[c.Params[i]] = fr.vals[fr.fn.Params[i]]
+			e.vars[c.Params[i]] = fr.vals[fr.fn.Params[i]]
+			if v, ok := vc.localAt(fr, site, c.Params[i].Name()); ok {
+				e.vars[c.Params[i]] = v
+			}
+		}
+		for i := c.NIn + c.NRes; i < len(c.Params); i++ {
+			if v, ok := vc.localAt(fr, site, c.Params[i].Name()); ok {
+				if !types.Identical(v.T, c.Params[i].Type()) && len(v.L) == len(layoutOf(c.Params[i].Type()).Leaves) {
+					v = Val{T: c.Params[i].Type(), L: v.L}
+				}
+				e.vars[c.Params[i]] = v
+			}
+		}
+		e.oldVars = old
+		g := vc.specBool(e, cl.Expr)
+		vc.oblige(st, "callsite."+callee, cl.Raw.Label, g, site.Pos(), vc.clauseProps(c, cl))
+	}
+}
+
+// localAt: the value of source variable name at instruction site: the value of
+// the closest preceding reference (DebugRef) in a dominating block.
+func (vc *VC) localAt(fr *Frame, site ssa.Instruction, name string) (Val, bool) {
+	sb := site.Block()
+	var best ssa.Value
+	var bestBlock *ssa.BasicBlock
+	for _, b := range fr.fn.Blocks {
+		if !b.Dominates(sb) {
+			continue
+		}
+		for _, instr := range b.Instrs {
+			if b == sb && instr == site {
+				break
+			}
+			dr, ok := instr.(*ssa.DebugRef)
+			if !ok || dr.IsAddr {
+				continue
+			}
+			id, ok := dr.Expr.(*ast.Ident)
+			if !ok || id.Name != name {
+				continue
+			}
+			if bestBlock == nil || bestBlock.Dominates(b) {
+				best, bestBlock = dr.X, b
+			}
+		}
+	}
+	if best == nil {
+		return Val{}, false
+	}
+	if v, ok := fr.vals[best]; ok {
+		return v, true
+	}
+	if cst, ok := best.(*ssa.Const); ok {
+		return vc.value(fr, cst), true
+	}
+	return Val{}, false
 }
